@@ -109,6 +109,20 @@ func stickyIn(ph *ssa.Phi, l *loopInfo, pol bool) (bool, string) {
 			}
 			return false, "overwritten by the current element's result regardless of earlier elements"
 		}
+		// `flag = flag && test(elem)`: the fresh test result is taken only where the flag itself
+		// is known to still be !pol (no failure so far), so it cannot clear an earlier failure
+		if fv, fknown := knownBoolAt(ph, from); fknown && fv != pol {
+			return true, ""
+		}
+		if from != nil {
+			if iff, ok := from.Instrs[len(from.Instrs)-1].(*ssa.If); ok && iff.Cond == ph && from.Succs[0] != from.Succs[1] {
+				for si, sb := range from.Succs {
+					if sb == to && (si == 0) != pol {
+						return true, ""
+					}
+				}
+			}
+		}
 		if inner, ok := v.(*ssa.Phi); ok && inner != ph && l.Body[inner.Block()] {
 			for i, e := range inner.Edges {
 				if ok2, why := check(e, inner.Block().Preds[i], inner.Block(), depth+1); !ok2 {
@@ -183,6 +197,25 @@ func runC05Sticky(c *Ctx) {
 						name = ph.Name()
 					}
 					disc := fmt.Sprintf("flag:%s#%d", name, n)
+					// the flag must be able to change: it starts as the opposite of its sticky value
+					entryVal, entryKnown := false, false
+					for i, e := range ph.Edges {
+						if !l.Body[ph.Block().Preds[i]] {
+							if cst, ok := e.(*ssa.Const); ok && cst.Value != nil {
+								entryVal, entryKnown = cst.Value.String() == "true", true
+							}
+						}
+					}
+					if entryKnown {
+						if okT && entryVal {
+							okT = false
+							whyT = "the flag starts as true and can only ever become true: no element can change the verdict"
+						}
+						if okF && !entryVal {
+							okF = false
+							whyF = "the flag starts as false and can only ever become false: no element can change the verdict"
+						}
+					}
 					if okT || okF {
 						c.OK("C05-STICKY", fnName(fn), disc, ph.Pos(), "monotone accumulation")
 					} else {
